@@ -354,7 +354,8 @@ static size_t get_indent_first_continue(Chunk *pc)
          return(continuation->GetOrigCol());
       }
    }
-   return(0);
+   // no continuation line: columns start at 1, a frame indented to 0 is never closed
+   return(1);
 }
 
 
